@@ -58,7 +58,7 @@ def kinds():
         ('duplex', False, lambda e: e.A.duplex(b'ab', 11, 64)), ('sibling M1', True, lambda e: e.B(M1)), ('singleton keccak_256 M1', True, lambda e: keccak.keccak_256(M1))])
     K['Keccak-200'] = (lambda: keccak.Keccak(b=200, r=72, len=64), [
         ('call M1', True, lambda e: e.A(M1)), ('call M2 bitlen', True, lambda e: e.A(M2, 143)), ('call M1 r=136', True, lambda e: e.A(M1, None, 136)),
-        ('overlong', False, lambda e: e.A(b'ab', 17)), ('sibling M1', True, lambda e: e.B(M1)), ('duplex', False, lambda e: e.A.duplex(b'a', 3, 8))])
+        ('overlong with r=136', False, lambda e: e.A(b'ab', 17, 136)), ('sibling M1', True, lambda e: e.B(M1)), ('duplex', False, lambda e: e.A.duplex(b'a', 3, 8))])
     def md6f():
         h = md.MD6(256, b'key', 64); h.rounds = 2; return h
     K['MD6'] = (md6f, [
